@@ -17,7 +17,13 @@ def sh(cmd, cwd=None, timeout=3600):
 
 def main():
     patch, demo = os.path.abspath(sys.argv[1]), os.path.abspath(sys.argv[2])
-    checks = sys.argv[3:]
+    args = sys.argv[3:]
+    name = agent_meta = None
+    if args and args[0].startswith("--name="):
+        name = args.pop(0)[7:]
+    if args and args[0].startswith("--meta="):
+        agent_meta = args.pop(0)[7:]
+    checks = args
     res = {"patch": patch, "demo": demo}
     wt = "/tmp/confirm-%d" % os.getpid()
     sh("git -C /repo worktree add -f %s HEAD" % wt)
@@ -68,7 +74,31 @@ def main():
         rc, out = sh("git -C /repo status --porcelain")
         res["repo_clean_after"] = not out.strip()
     print(json.dumps(res, indent=1))
+    if name:
+        seed(name, patch, demo, agent_meta, res)
     return 0
+
+
+def seed(name, patch, demo, agent_meta, res):
+    """keep a confirmed change as /verif/seeded/<name>/"""
+    d = "/verif/seeded/" + name
+    os.makedirs(d, exist_ok=True)
+    shutil.copy(patch, d + "/patch.diff")
+    shutil.copy(demo, d + "/demo_test.go")
+    am = {}
+    if agent_meta and os.path.exists(agent_meta):
+        try:
+            am = json.load(open(agent_meta))
+        except Exception as e:
+            am = {"unparsed": open(agent_meta).read()[:4000]}
+    meta = {"property": name.split("-")[0], "from_author": am,
+            "confirmed": {k: res.get(k) for k in ("demo_passes_without", "demo_fails_with", "suite_passes_with")},
+            "what_i_ran": ["scratch worktree of /repo HEAD: demo without the change (go test -vet=off -count=1 -run <demo>), "
+                           "git apply patch.diff, demo again, go build ./... && go test -vet=off -count=1 ./...",
+                           "git -C /repo apply patch.diff; " + "; ".join("./check %s --tier quick" % c for c in res.get("checks", {}))
+                           + "; git -C /repo checkout -- ."],
+            "checks": res.get("checks", {}), "repo_clean_after": res.get("repo_clean_after")}
+    json.dump(meta, open(d + "/meta.json", "w"), indent=1)
 
 
 if __name__ == "__main__":
